@@ -976,3 +976,72 @@ def merge_appends(fn):
                     block(h.body)
     block(fn.body)
     return cnt[0]
+
+
+def inline_test_locals(fn):
+    """`t = E` directly followed by `if t:` (or `if not t:`), t read nowhere
+    else and E free of calls other than isinstance / hasattr: the test reads
+    E itself.  Returns a copy (or fn when nothing applies)."""
+    loads = {}
+    for n in ast.walk(fn):
+        if isinstance(n, ast.Name) and isinstance(n.ctx, ast.Load):
+            loads[n.id] = loads.get(n.id, 0) + 1
+    stores = {}
+    for n in ast.walk(fn):
+        if isinstance(n, ast.Name) and isinstance(n.ctx, (ast.Store,
+                                                          ast.Del)):
+            stores[n.id] = stores.get(n.id, 0) + 1
+
+    def simple(e):
+        return not any(
+            isinstance(n, (ast.Await, ast.Yield, ast.YieldFrom,
+                           ast.NamedExpr, ast.Lambda)) or (
+                isinstance(n, ast.Call) and not (
+                    isinstance(n.func, ast.Name) and n.func.id in (
+                        "isinstance", "hasattr", "len", "bool")))
+            for n in ast.walk(e))
+    out = acopy(fn)
+    changed = [0]
+
+    def block(stmts):
+        i = 0
+        while i + 1 < len(stmts):
+            a, b = stmts[i], stmts[i + 1]
+            if isinstance(a, ast.Assign) and len(a.targets) == 1 and \
+                    isinstance(a.targets[0], ast.Name) and isinstance(
+                        b, ast.If) and simple(a.value):
+                t = a.targets[0].id
+                test = b.test
+                inner = test.operand if isinstance(
+                    test, ast.UnaryOp) and isinstance(
+                        test.op, ast.Not) else test
+                if isinstance(inner, ast.Name) and inner.id == t and \
+                        loads.get(t, 0) == 1 and stores.get(t, 0) == 1:
+                    new = acopy(a.value)
+                    if inner is test:
+                        b.test = new
+                    else:
+                        test.operand = new
+                    del stmts[i]
+                    changed[0] += 1
+                    continue
+            i += 1
+        for s_ in stmts:
+            if isinstance(s_, (ast.FunctionDef, ast.AsyncFunctionDef,
+                               ast.ClassDef)):
+                continue
+            for fld in ("body", "orelse", "finalbody"):
+                sub = getattr(s_, fld, None)
+                if isinstance(sub, list) and sub and isinstance(
+                        sub[0], ast.stmt):
+                    block(sub)
+            if isinstance(s_, ast.Try):
+                for h in s_.handlers:
+                    block(h.body)
+    block(out.body)
+    if not changed[0]:
+        return fn
+    ast.fix_missing_locations(out)
+    set_parents(out)
+    out._parent = getattr(fn, "_parent", None)
+    return out
